@@ -1,8 +1,8 @@
 #!/verif/.venv/bin/python
 # Replay of a solver counterexample against the unmodified code (no shims).
-# property=C12 kernel=layout_sym label=k2:accepted_layout_respects_min_distance
+# property=C12 kernel=coords label=k1:distance_error_has_cause
 import sys
 sys.path[:0] = ['/repo' + "/pulser-core", '/repo' + "/pulser-simulation", "/verif"]
 from symx.replay import replay
-sys.exit(replay(check='checks.c12', kernel='layout_sym', shape={'mind': 0.0, 'range': 1e-05},
-                assignment={'tx': -5, 'ty': -5}, label='k2:accepted_layout_respects_min_distance'))
+sys.exit(replay(check='checks.c12', kernel='coords', shape={'dims': 2, 'n': 2, 'nsym': 1, 'mind': False, 'maxr': True, 'maxn': True},
+                assignment={'max_radial_distance': '0/1', 'max_atom_num': 1, 'x0_0': '6/1', 'x0_1': '0/1'}, label='k1:distance_error_has_cause'))
